@@ -224,3 +224,239 @@ Example C03_token_table_witness :
   = Ok ([mkTE 1 1 0 1; mkTE 2 1 1 1; mkTE 3 1 0 2; mkTE 4 1 0 3; mkTE 5 1 1 3; mkTE 6 1 0 4],
         [(1, [1; 2]); (2, [3]); (3, [4; 5]); (4, [6])])%N.
 Proof. vm_compute. reflexivity. Qed.
+
+(* ================================================================ byte-level block codecs (ModelBytes.v) *)
+From C03 Require Import ModelBytes ProofsBytes ProofsBytesForm.
+
+(* thm:C03_varint_roundtrip — BytesPacker.PutVarint / BytesUnpacker.GetVarint (encoding/binary zig-zag + base-128
+   little-endian groups with continuation bit): for EVERY int64 x and every following bytes, GetVarint reads x back
+   and leaves exactly the following bytes; PutVarint writes 1..10 bytes (never beyond the 10-byte scratch buffer). *)
+Theorem C03_varint_roundtrip : forall x, (-9223372036854775808 <= x < 9223372036854775808)%Z ->
+  (forall rest, get_varint (put_varint x ++ rest) = DOk (x, rest)) /\ 1 <= length (put_varint x) <= 10.
+Proof. exact varint_roundtrip_full. Qed.
+Print Assumptions C03_varint_roundtrip.
+
+(* ... and the decoder is total on EVERY byte string (no hypothesis at all, not even "bytes below 256"): it returns
+   an int64 value having consumed 1..10 bytes of the buffer, or the error (truncated input, or overflow beyond 10
+   bytes / beyond 64 bits); it never panics and never reads past the buffer. *)
+Theorem C03_varint_decode_total : forall buf,
+  match get_varint buf with
+  | DOk (v, rest) => (-9223372036854775808 <= v < 9223372036854775808)%Z
+                     /\ exists pre, buf = pre ++ rest /\ 1 <= length pre <= 10
+  | DErr => True
+  | _ => False
+  end.
+Proof. exact varint_decode_total. Qed.
+Print Assumptions C03_varint_decode_total.
+
+(* thm:C03_chunks_bytes_roundtrip — Chunks.unpack on the BYTES Chunks.Pack wrote returns the chunks and the IsLastLID
+   flag, for every well-formed Chunks (the same chunks_wf as C03_chunks_codec, which this composes with: deltas
+   int64(lid)-lastLID, marker -1-lastLID, uint32 wrap of lid += uint32(delta)). *)
+Theorem C03_chunks_bytes_roundtrip : forall c, chunks_wf c -> unpack_bytes (pack_bytes c) = DOk c.
+Proof. exact chunks_bytes_roundtrip. Qed.
+Print Assumptions C03_chunks_bytes_roundtrip.
+
+(* ... and Chunks.unpack is total on arbitrary bytes: chunks or the varint error, never a panic *)
+Theorem C03_chunks_bytes_total : forall buf, match unpack_bytes buf with DOk _ | DErr => True | _ => False end.
+Proof. exact unpack_bytes_total. Qed.
+Print Assumptions C03_chunks_bytes_total.
+
+(* thm:C03_ids_blocks_bytes_roundtrip — DiskIDsBlock.packMIDs / packRIDs / packPos read back by unpackRawIDsVarint /
+   unpackRawIDsNoVarint (UnpackCache.unpackMIDs, unpackRIDs with fracVersion >= BinaryDataV1 resp. < BinaryDataV1,
+   loadParamsBlock): decode(encode xs) = xs for EVERY list of uint64 — any order, so deltas may be negative or wrap
+   around 2^64 (int64(mid - prev) then id += uint64(delta)). The old RID format has no encoder left in the tree:
+   its bytes are the delta varints of packMIDs. *)
+Theorem C03_ids_blocks_bytes_roundtrip : forall mids rids pos,
+  Forall (fun x => x < 18446744073709551616)%N mids -> Forall (fun x => x < 18446744073709551616)%N rids ->
+  Forall (fun x => x < 18446744073709551616)%N pos ->
+  unpack_ids_varint (pack_mids mids) = DOk mids
+  /\ unpack_rids 1 (pack_rids rids) = DOk rids
+  /\ unpack_rids 0 (pack_mids rids) = DOk rids
+  /\ unpack_ids_varint (pack_pos pos) = DOk pos.
+Proof. exact ids_blocks_bytes_roundtrip. Qed.
+Print Assumptions C03_ids_blocks_bytes_roundtrip.
+
+(* DiskPositionsBlock.pack read back by Loader.loadIDs: the block count, IDsTotal and every docs block offset *)
+Theorem C03_positions_block_roundtrip : forall total offs,
+  (total < 4294967296)%N -> (N.of_nat (length offs) < 4294967296)%N -> Forall (fun x => x < 18446744073709551616)%N offs ->
+  load_positions (pack_positions total offs) = DOk (N.of_nat (length offs), total, offs).
+Proof. exact positions_block_roundtrip. Qed.
+Print Assumptions C03_positions_block_roundtrip.
+
+(* the ID block decoders terminate on arbitrary bytes (value or panic — see the examples below — never out of fuel) *)
+Theorem C03_ids_decoders_total : forall v src, unpack_rids v src <> DFuel.
+Proof. exact ids_decoders_total. Qed.
+Print Assumptions C03_ids_decoders_total.
+
+(* thm:C03_tokens_block_bytes_roundtrip — a physical token block = the packs of ANY number of DiskTokensBlocks
+   (each: [len uint32][bytes] per token, then the 0xFFFFFFFF separator), tokens of any content and any length below
+   2^32-1, the block below 4 GiB (offsets are uint32): Block.unpack builds an offsets array such that GetValByTID
+   at index k (= StartIndex + tid - StartTID) returns exactly the k-th token of the block, separators skipped. *)
+Theorem C03_tokens_block_bytes_roundtrip : forall groups,
+  Forall (Forall (fun t => N.of_nat (length t) < 4294967295)%N) groups ->
+  (N.of_nat (length (pack_phys groups)) < 4294967296)%N ->
+  exists offs, blk_unpack (pack_phys groups) = DOk offs /\
+    forall k t, nth_error (concat groups) k = Some t -> get_val (pack_phys groups) offs (N.of_nat k) = DOk t.
+Proof. exact tokens_block_bytes_roundtrip. Qed.
+Print Assumptions C03_tokens_block_bytes_roundtrip.
+
+(* Block.unpack terminates on arbitrary bytes. The stronger "offsets or error" is REFUTED by the faithful model:
+   see C03_tokens_unpack_value_or_error_refuted below (1..3 stray bytes panic in LittleEndian.Uint32). *)
+Theorem C03_tokens_block_unpack_total : forall data, blk_unpack data <> DFuel.
+Proof. exact blk_unpack_total. Qed.
+Print Assumptions C03_tokens_block_unpack_total.
+
+(* thm:C03_token_table_bytes_roundtrip — DiskTokenTableBlock.pack / TableEntry.Pack read back by TableLoader.load:
+   for every list of fields (name, entries) with uint32 numbers and strings below 4 GiB the loader returns, per
+   field, the name, MinVal = the minVal of entry 0, and StartTID / ValCount / StartIndex / BlockIndex / MaxVal of
+   every entry, in order. *)
+Theorem C03_token_table_bytes_roundtrip : forall fs, Forall field_ok fs -> load_table (pack_table fs) = DOk (map lfield_of fs).
+Proof. exact token_table_bytes_roundtrip. Qed.
+Print Assumptions C03_token_table_bytes_roundtrip.
+
+(* thm:C03_index_header_roundtrip — the 33-byte index block header C:LLLL:RRRR:E1:E2:P and the registry: for every
+   list of headers within the field widths, what Loader.Load sees (Len, Ext1, Ext2 of every entry) is what was
+   written, GetBlockHeader(i) is the i-th header whose six accessors return the six fields, and an index at or
+   beyond the count is an error. *)
+Theorem C03_index_header_roundtrip : forall hs, Forall hdr_ok hs ->
+  read_registry (pack_registry hs) = map hdr3 hs
+  /\ (forall i h, nth_error hs i = Some h ->
+        get_header (pack_registry hs) i = DOk (pack_hdr h) /\ forall rest, unpack_hdr (pack_hdr h ++ rest) = h)
+  /\ (forall i, length hs <= i -> get_header (pack_registry hs) i = DErr).
+Proof. exact index_header_roundtrip. Qed.
+Print Assumptions C03_index_header_roundtrip.
+
+(* thm:C03_form_independent_bytes — C03_form_independent with the registry, every LID block, every ID block and the
+   positions block going through their BYTE encodings: Loader.Load over the registry bytes returns the tables sealing
+   kept; every LID block decoded from its bytes is the block sealing held; a posting read over the loaded tables and
+   the decoded blocks is the active answer; every ID block and the positions block decode to what was encoded. *)
+Theorem C03_form_independent_bytes : forall cap fields im bs tid lo hi asc hs,
+  0 < cap -> input_ok fields -> input_sorted fields ->
+  (tokens_total fields < 4294967295)%N -> (1 <= tid <= tokens_total fields)%N ->
+  gen_blocks cap fields = Ok bs -> map snd (im_lids im) = bs -> image_ok im ->
+  map hdr3 hs = registry_of im -> Forall hdr_ok hs ->
+  load (read_registry (pack_registry hs)) = Some (preloaded im)
+  /\ map (fun b => unpack_bytes (pack_bytes (b_chunks b))) bs = map (fun b => DOk (b_chunks b)) bs
+  /\ (forall t cs, load (read_registry (pack_registry hs)) = Some t ->
+        map (fun b => unpack_bytes (pack_bytes (b_chunks b))) bs = map DOk cs ->
+        read_with (tb_lids t) cs asc tid lo hi = Ok (expected asc fields tid lo hi))
+  /\ (forall mids rids pos, Forall u64ok mids -> Forall u64ok rids -> Forall u64ok pos ->
+        unpack_ids_varint (pack_mids mids) = DOk mids
+        /\ unpack_rids 1 (pack_rids rids) = DOk rids /\ unpack_rids 0 (pack_mids rids) = DOk rids
+        /\ unpack_ids_varint (pack_pos pos) = DOk pos)
+  /\ (forall total offs, u32ok total -> u32ok (N.of_nat (length offs)) -> Forall u64ok offs ->
+        load_positions (pack_positions total offs) = DOk (N.of_nat (length offs), total, offs)).
+Proof. exact form_independent_bytes. Qed.
+Print Assumptions C03_form_independent_bytes.
+
+(* ... and the token dictionary through bytes: with the table of C03_token_table_exact, for EVERY assignment of byte
+   strings to the TIDs and EVERY cut of a physical block into DiskTokensBlock packs, Block.unpack on the block's
+   bytes succeeds and GetValByTID at StartIndex + tid - StartTID of the TID's entry is the TID's byte string. *)
+Theorem C03_form_independent_bytes_tokens : forall fields es bl (tokv : N -> list N),
+  tok_table fields = Ok (es, bl) -> (forall t, tok_ok (tokv t)) ->
+  forall tid, (1 <= tid <= N.of_nat (length (concat fields)))%N ->
+  exists e b, find_entry es tid = Some e /\ blk_get bl (te_blk e) = Some b /\
+    forall groups, concat groups = map tokv b -> (N.of_nat (length (pack_phys groups)) < 4294967296)%N ->
+      exists offs, blk_unpack (pack_phys groups) = DOk offs /\
+        get_val (pack_phys groups) offs (te_sidx e + tid - te_tid e) = DOk (tokv tid).
+Proof. exact form_independent_bytes_tokens. Qed.
+Print Assumptions C03_form_independent_bytes_tokens.
+
+(* ---------------------------------------------------------------- byte codecs: non-vacuity, boundaries, refutations *)
+
+(* boundary values of the task: 0, 2^7-1, 2^7, 2^14, 2^32-1, 2^63-1, -2^63 (uint64 2^63 and 2^64-1 as deltas) *)
+Example C03_varint_boundaries :
+  map put_varint [0; 63; 64; 8192; 4294967295; 9223372036854775807; -9223372036854775808; -1]%Z
+  = [[0]; [126]; [128; 1]; [128; 128; 1]; [254; 255; 255; 255; 31];
+     [254; 255; 255; 255; 255; 255; 255; 255; 255; 1]; [255; 255; 255; 255; 255; 255; 255; 255; 255; 1]; [1]]%N
+  /\ get_varint (put_varint (-9223372036854775808) ++ [7]%N) = DOk ((-9223372036854775808)%Z, [7]%N).
+Proof. split; vm_compute; reflexivity. Qed.
+
+(* the error cases of GetVarint: empty / truncated input, an 11th byte, a 10th byte above 1 *)
+Example C03_varint_errors :
+  get_varint [] = DErr /\ get_varint [128; 128]%N = DErr
+  /\ get_varint [128;128;128;128;128;128;128;128;128;128;1]%N = DErr
+  /\ get_varint [128;128;128;128;128;128;128;128;128;2]%N = DErr.
+Proof. repeat split; vm_compute; reflexivity. Qed.
+
+(* decreasing IDs, a delta of 2^63 and the wrap around 2^64: all hypotheses of C03_ids_blocks_bytes_roundtrip hold *)
+Example C03_ids_blocks_nonvacuous :
+  let xs := [5; 3; 18446744073709551615; 0; 9223372036854775808; 127; 128; 16384; 4294967295]%N in
+  Forall (fun x => x < 18446744073709551616)%N xs
+  /\ unpack_ids_varint (pack_mids xs) = DOk xs /\ unpack_rids 1 (pack_rids xs) = DOk xs
+  /\ unpack_rids 0 (pack_mids xs) = DOk xs
+  /\ unpack_ids_varint (pack_mids []) = DOk [] /\ unpack_rids 1 (pack_rids [7%N]) = DOk [7%N].
+Proof. cbv zeta. split; [repeat constructor|]. repeat split; vm_compute; reflexivity. Qed.
+
+(* malformed ID blocks PANIC in the real code (explicit panic of unpackRawIDsVarint; index out of range in
+   LittleEndian.Uint64 for a tail shorter than 8 bytes); Loader.loadIDs returns an error for a truncated varint
+   but panics on an overflowing one (it only tests n == 0, then slices result[n:] with n < 0) *)
+Example C03_ids_malformed_panics :
+  unpack_ids_varint [128]%N = DPanic /\ unpack_rids 1 [1;2;3]%N = DPanic
+  /\ load_positions [1;0;0;0; 9;0;0;0; 128]%N = DErr
+  /\ load_positions [1;0;0;0; 9;0;0;0; 128;128;128;128;128;128;128;128;128;128;1]%N = DPanic
+  /\ load_positions [1;0;0]%N = DPanic.
+Proof. repeat split; vm_compute; reflexivity. Qed.
+
+Example C03_positions_nonvacuous :
+  load_positions (pack_positions 4097 [0; 300; 170; 18446744073709551615]%N)
+  = DOk (4%N, 4097%N, [0; 300; 170; 18446744073709551615]%N).
+Proof. vm_compute. reflexivity. Qed.
+
+(* two DiskTokensBlocks in one physical block, an empty token, a single-token block *)
+Example C03_tokens_block_nonvacuous :
+  let groups := [[[1;2;3]; []]; [[9]]]%N in
+  Forall (Forall (fun t => N.of_nat (length t) < 4294967295)%N) groups
+  /\ (N.of_nat (length (pack_phys groups)) < 4294967296)%N
+  /\ blk_unpack (pack_phys groups) = DOk [0;0;0;0; 7;0;0;0; 15;0;0;0]%N
+  /\ get_val (pack_phys groups) [0;0;0;0; 7;0;0;0; 15;0;0;0]%N 2 = DOk [9]%N
+  /\ get_val (pack_phys groups) [0;0;0;0; 7;0;0;0; 15;0;0;0]%N 3 = DPanic.
+Proof. cbv zeta. split; [repeat constructor|]. repeat split; vm_compute; reflexivity. Qed.
+
+(* REFUTATION of "Block.unpack is total on arbitrary bytes: offsets or error": frac/token/block_loader.go
+   Block.unpack reads binary.LittleEndian.Uint32(data) whenever len(data) != 0, so 1..3 stray bytes (alone, or
+   after a well-formed prefix) panic with an index out of range instead of returning the error. A length word
+   larger than the rest does return the error. (Its only caller BlockLoader.read turns the error into logger.Panic
+   anyway; well-formed blocks are never affected: C03_tokens_block_bytes_roundtrip.) *)
+Example C03_tokens_unpack_value_or_error_refuted :
+  exists data, blk_unpack data = DPanic.
+Proof. exists [1]%N. vm_compute. reflexivity. Qed.
+Example C03_tokens_unpack_malformed :
+  blk_unpack [1;2;3]%N = DPanic
+  /\ blk_unpack (pack_phys [[[5;6]]] ++ [0;0])%N = DPanic
+  /\ blk_unpack [9;0;0;0; 1;2]%N = DErr.
+Proof. repeat split; vm_compute; reflexivity. Qed.
+
+Example C03_token_table_nonvacuous :
+  let fs := [([102;1], [mkTEB 1 2 0 1 [7] [8;9]; mkTEB 3 1 2 1 [] [5]]); ([103], [])]%N in
+  Forall field_ok fs
+  /\ load_table (pack_table fs)
+     = DOk [([102;1], [7], [(1, 2, 0, 1, [8;9]); (3, 1, 2, 1, [5])]); ([103], [], [])]%N.
+Proof. cbv zeta. split; [repeat constructor|vm_compute; reflexivity]. Qed.
+
+Example C03_index_header_nonvacuous :
+  let hs := [mkHdrB 1 4294967295 16384 18446744073709551615 9223372036854775808 16; mkHdrB 0 0 0 0 0 0]%N in
+  Forall hdr_ok hs /\ length (pack_registry hs) = 66
+  /\ read_registry (pack_registry hs) = [(4294967295, 18446744073709551615, 9223372036854775808); (0, 0, 0)]%N
+  /\ get_header (pack_registry hs) 2 = DErr.
+Proof. cbv zeta. split; [repeat constructor|]. repeat split; vm_compute; reflexivity. Qed.
+
+(* the hypotheses of C03_form_independent_bytes are satisfiable: the image of C03_ids_tables_witness with full
+   headers (codec, raw length, position) around its registry entries *)
+Example C03_form_independent_bytes_nonvacuous :
+  let fields := [[[1;2;3;4;5;6;7]%N; [2;9]%N]; [[5]%N]] in
+  let bs := [mkBlock 1 1 false (mkChunks [[1;2;3]%N] false);
+             mkBlock 2 1 true (mkChunks [[4;5;6]%N] false);
+             mkBlock 2 2 true (mkChunks [[7]%N; [2;9]%N] true);
+             mkBlock 3 3 false (mkChunks [[5]%N] true)] in
+  let im := mkImage 100 [40; 41]%N [30]%N 12 [((900, 5), (11, 12, 13)); ((100, 7), (14, 15, 16))]%N
+                    (combine [21; 22; 23; 24]%N bs) in
+  let hs := map (fun h : hdr => mkHdrB 1 (h_len h) (h_len h + 5) (h_ext1 h) (h_ext2 h) 77) (registry_of im) in
+  gen_blocks 3 fields = Ok bs /\ map snd (im_lids im) = bs
+  /\ map hdr3 hs = registry_of im /\ Forall hdr_ok hs
+  /\ load (read_registry (pack_registry hs)) = Some (preloaded im)
+  /\ map (fun b => unpack_bytes (pack_bytes (b_chunks b))) bs = map (fun b => DOk (b_chunks b)) bs.
+Proof.
+  cbv zeta. split; [vm_compute; reflexivity|]. split; [vm_compute; reflexivity|]. split; [vm_compute; reflexivity|].
+  split; [vm_compute; repeat constructor|]. split; vm_compute; reflexivity.
+Qed.
